@@ -64,7 +64,7 @@ __CPROVER_ensures(IMPLIES(__CPROVER_return_value == KSI_OK && buf != NULL && g_t
 __CPROVER_assigns(*buf_len; buf != NULL: __CPROVER_object_upto(buf, buf_size));
 
 /* One element, right-aligned: [header][payload] ends at buf+buf_size.  From the property text:
- *  - a payload longer than 0xffff is refused, never written with a wrong length            (DESIGN 7-e expects this to fail)
+ *  - a payload longer than 0xffff is refused (KSI_INVALID_FORMAT), never written with a wrong length   (DESIGN 7-e, fixed by 024f958)
  *  - the reported size is payload + header, the header is 2 octets exactly when tag <= 0x1f and payload <= 0xff
  *  - the header octets are the reference encoding of (tag, non-critical, forward, payload length)
  *  - BUFFER_OVERFLOW exactly when it does not fit; nothing outside [buf, buf+buf_size) is written (assigns + pointer checks)
@@ -82,7 +82,10 @@ __CPROVER_requires(__CPROVER_is_fresh(buf_len, sizeof(*buf_len)))
 __CPROVER_ensures(IMPLIES(__CPROVER_return_value == KSI_OK && TLV_WANTS_HDR(opt), g_sp_len <= SPEC_TLV_MAX_LEN))
 __CPROVER_ensures(IMPLIES(__CPROVER_return_value == KSI_OK,
 		*buf_len == g_sp_len + (TLV_WANTS_HDR(opt) ? spec_tlv_enc_hdr_len(tlv->tag, g_sp_len) : 0)))
+/* result: the payload's own error; else content that exceeds the 16-bit length field is refused with INVALID_FORMAT
+ * (distinct from BUFFER_OVERFLOW = does not fit the caller's buffer); else BUFFER_OVERFLOW exactly when it does not fit */
 __CPROVER_ensures(__CPROVER_return_value == (g_sp_res != KSI_OK ? g_sp_res :
+		(TLV_WANTS_HDR(opt) && g_sp_len > SPEC_TLV_MAX_LEN) ? KSI_INVALID_FORMAT :
 		(buf != NULL && TLV_WANTS_HDR(opt) && buf_size - g_sp_len < spec_tlv_enc_hdr_len(tlv->tag, g_sp_len)) ? KSI_BUFFER_OVERFLOW : KSI_OK))
 __CPROVER_ensures(IMPLIES(__CPROVER_return_value == KSI_OK && buf != NULL && TLV_WANTS_HDR(opt),
 		*buf_len <= buf_size &&
